@@ -213,14 +213,19 @@ class Prop:
               "diff_node_formatter): for sibling-unique trees on which == and data_id agree and EVERY iteration order, identical inputs "
               "give an unmarked copy, dropping REMOVED/MOVED_TO gives t1's parent-child relation (paths of data objects, as a "
               "permutation), dropping ADDED/MOVED_HERE gives t0's child lists in order below every node present in both, marks sit "
-              "exactly on the one-sided children, order marks are the true old/new index and appear only when ordered (dc_renumbered "
+              "exactly on the one-sided children, inside an added branch the first level is marked and deeper nodes are not (or MOVED_HERE), order marks are the true old/new index and appear only when ordered (dc_renumbered "
               "iff a child is shifted); for ANY two forests diff does not raise (inputs with sibling-unique data_ids), MOVED_HERE and MOVED_TO come in pairs with equal "
               "data_id and reduce keeps exactly the marked nodes and their ancestors (pre-order with depths); complete iteration orders "
               "leave no REMOVED mark that an added node could explain.  Tied to /repo on every run by a correspondence check (all pairs "
               "of small forests x 4 configurations, mutated random trees, typed trees, an out-of-domain stream) and an independent "
               "Python oracle of the projection laws, the marks, the order marks, the move pairs, reduce and 'inputs unchanged'."),
         note=("Trusted: Coq kernel + vm_compute; hand-written model theories/Forest/Diff.v, DiffFormat.v (tied by the correspondence only); "
-              "harness. 'Inputs unchanged' is a fact of the model being a pure function; for the implementation it is observed (both "
+              "harness. The property quantifies over trees 'over a shared label alphabet': equal labels <=> equal data <=> equal data_id "
+              "(did_is_data); with it the domain costs nothing for reachable trees (C11_reachable_domain).  Outside it the library "
+              "really misbehaves and the model reproduces it (Examples C11_outside_domain_node_lost, _self_diff_marks, "
+              "_branch_copied_twice: explicit data_ids / calc_data_id that disagree with ==); the one case reachable with default ids, "
+              "a hash collision between unequal labels (hash(-1) == hash(-2)), is the KNOWN FINDING D91 (C11_projection_t1_unrestricted_refuted). "
+              "'Inputs unchanged' is a fact of the model being a pure function; for the implementation it is observed (both "
               "inputs before/after every call). The set iteration order of the implementation is not reproduced but witnessed: the "
               "harness passes the nodes marked MOVED_HERE as hints, the model processes them first (a permutation of added_nodes, "
               "proved). Marks inside an added branch (ADDED on its first level only, nothing below) are modelled as they are; the "
@@ -322,6 +327,12 @@ class Prop:
                 return [[l, rng.choice(["k1", "k2"]), d, kinds(ch)] for l, _, d, ch in nodes]
 
             yield dict(univ=LABELS[:k], t0=kinds(t0), t1=kinds(t1), typed=True)
+        # known finding D91: default-id trees over an alphabet with a hash collision between unequal labels (-1, -2)
+        ncoll = 25 if tier == "quick" else 150
+        for i in range(ncoll):
+            t0 = rand_nodes(rng, rng.randint(1, 5), 3)
+            t1 = mutate(rng, t0, 3, rng.randint(1, 3))
+            yield dict(univ=["i:-1", "i:-2", "s:a"], t0=t0, t1=t1)
         # out of the theorem's domain: equal-comparing objects under explicit ids
         nout = 60 if tier == "quick" else 300
         for i in range(nout):
@@ -409,6 +420,8 @@ class Prop:
         coq_cfgs = []
         moved_to_dids = set()
         fails = []
+        kfails = []
+        default_ids = not any_explicit_id(desc["t0"]) and not any_explicit_id(desc["t1"])
         marks = 0
         ambiguous = False
         errors = 0
@@ -447,6 +460,14 @@ class Prop:
             rm = res._root._meta or {}
             labels = [diff_node_formatter(n) for n in B.all_nodes(res._root)] if (ordered and not reduce) else []
             obs_runs.append([enc_meta(rm), obs_forest(res._root, U), labels])
+            if outside and default_ids:
+                # KNOWN FINDING D91: default-id trees whose alphabet has two unequal labels with one hash (CPython:
+                # hash(-1) == hash(-2)): children are matched by ==, "added" is decided by data_id.  The oracle is the
+                # property's; its failures here are the finding (the model reproduces the behaviour exactly).
+                f, st = oracle(t0, t1, res, ordered, reduce, snap)
+                marks += st["marks"]
+                if f:
+                    kfails.append(f"{f} [ordered={ordered} reduce={reduce}]")
             if not outside:
                 f, st = oracle(t0, t1, res, ordered, reduce, snap)
                 f = f or check_kinds(res, t0, t1)
@@ -484,10 +505,17 @@ class Prop:
         obs[1], obs[2] = sx_in(t0._root, U, base), sx_in(t1._root, U, base)
         coq_input = f"(({in0}, {in1}, {H.coq_list(coq_cfgs)}) : case11)"
         n0, n1 = B.nodes_size(desc["t0"]), B.nodes_size(desc["t1"])
+        finding = None
+        if kfails and not fails:
+            fails, finding = ["known D91 (hash collision between unequal labels): " + kfails[0]], "D91"
         return Case(desc=desc, coq_input=coq_input, impl_obs=obs, oracle_fail="; ".join(fails[:3]) if fails else None,
-                    nontrivial=marks > 0, key=H.digest([desc["univ"], desc["t0"], desc["t1"], desc.get("edits")]),
+                    finding=finding, nontrivial=marks > 0, key=H.digest([desc["univ"], desc["t0"], desc["t1"], desc.get("edits")]),
                     stats=dict(n0=min(n0, 16), n1=min(n1, 16), marked=marks > 0, ambiguous=ambiguous, raised=errors > 0,
                                outside=outside, dup_excluded=dup_excluded))
+
+
+def any_explicit_id(nodes):
+    return any(n[2] is not None or any_explicit_id(n[3]) for n in nodes)
 
 
 def apply_edit(e, t0, t1, U):
@@ -788,6 +816,16 @@ def oracle(t0, t1, res, ordered, reduce, snap):
             elif i0 is None and i1 is not None:
                 if dc not in NEW:
                     return f"marks: child {d!r} of {where} only in t1 carries {dc}"
+                # inside the added branch: first level ADDED/MOVED_HERE, deeper levels no mark or MOVED_HERE
+                for d1, m1, k1 in k:
+                    if dc_of(m1) not in NEW:
+                        return f"marks: first level {d1!r} below the added node {where}/{d} carries {dc_of(m1)}"
+                    stack = list(k1)
+                    while stack:
+                        d2, m2, k2 = stack.pop()
+                        if dc_of(m2) not in (None, DC.MOVED_HERE):
+                            return f"marks: node {d2!r} deep inside the added branch {where}/{d} carries {dc_of(m2)}"
+                        stack.extend(k2)
             elif i0 is not None and i1 is not None:
                 exp = (i0, i1) if (ordered and i0 != i1) else None
                 if dc != exp:
@@ -933,6 +971,8 @@ def ucanon(s):
 
 
 CORPUS = [
+    # known finding D91: hash(-1) == hash(-2): the t1 child -2 is neither matched (==) nor added (data_id): lost
+    dict(univ=["i:-1", "i:-2", "s:a"], t0=[[0, None, None, []]], t1=[[1, None, None, []]]),
     # history (seeded C11-9): diff, re-order / move-away+add in the second tree keeping the child counts, diff again
     dict(univ=LABELS[:4], t0=[[0, None, None, [[1, None, None, []], [2, None, None, []]]], [3, None, None, []]],
          t1=[[0, None, None, [[1, None, None, []], [2, None, None, []]]], [3, None, None, []]], edits=[["rotate", 1, 0]]),
